@@ -1,3 +1,7 @@
 #!/bin/bash
-# placeholder, replaced when the framework lands
-exit 0
+# Builds the framework from files on disk only (offline) and warms the Go build cache.
+set -e
+export GOFLAGS=-mod=mod GOPROXY=off GOSUMDB=off GOTOOLCHAIN=local
+cd /verif
+./build.sh
+echo "setup ok"
